@@ -10,6 +10,7 @@ package props
 // death at that point leaves behind.
 
 import (
+	"encoding/hex"
 	"bytes"
 	"encoding/json"
 	"fmt"
@@ -28,6 +29,10 @@ import (
 type C12Req struct {
 	Session int `json:"session"`
 	Input   BS  `json:"input"`
+	// Legacy: before this request the session's record is moved to its legacy name
+	Legacy bool `json:"legacy,omitempty"`
+	// LegacyCopy: before this request the session's record is copied to its legacy name
+	LegacyCopy bool `json:"legacy_copy,omitempty"`
 }
 
 type C12Case struct {
@@ -94,6 +99,18 @@ func genC12(t *rapid.T) C12Case {
 	if len(c.Requests) > 12 {
 		c.Requests = c.Requests[:12]
 	}
+	if chancePct(t, 25, "legacy") && len(c.Requests) > 2 {
+		// a store that was written by an older layout: at some point a session's record sits
+		// under its legacy name (which the backend still reads, and leaves behind when it saves)
+		r := &c.Requests[1+uniformN(t, len(c.Requests)-1, "legacyat")]
+		if chancePct(t, 50, "legacycopy") {
+			// ... or both names exist: an older version wrote the legacy one, a newer one has
+			// saved under the current name since
+			r.LegacyCopy = true
+		} else {
+			r.Legacy = true
+		}
+	}
 	c.Shm = chancePct(t, 25, "shm")
 	return c
 }
@@ -157,6 +174,27 @@ func checkC12(c C12Case) (o Outcome) {
 		o.Discard = "saver-request-panicked"
 		return
 	}
+	// what the library asked the store to keep, per request
+	savedBy := make([][][]byte, len(c.Requests))
+	{
+		dec := json.NewDecoder(strings.NewReader(stdout.String()))
+		for {
+			var r struct {
+				N     int      `json:"n"`
+				Saved []string `json:"saved"`
+			}
+			if dec.Decode(&r) != nil {
+				break
+			}
+			if r.N >= 0 && r.N < len(savedBy) {
+				for _, h := range r.Saved {
+					if b, err := hex.DecodeString(h); err == nil {
+						savedBy[r.N] = append(savedBy[r.N], b)
+					}
+				}
+			}
+		}
+	}
 	ops, err := crashfs.Parse(tracePath, dir, tmpdir)
 	if err != nil {
 		return infra("trace not usable: %v", err)
@@ -208,23 +246,32 @@ func checkC12(c C12Case) (o Outcome) {
 		bracket := ops[i+1 : j]
 		s := c.Requests[k].Session
 		P := recordPath(s)
+		L := filepath.Join(dir, c.Sessions[s]) // the legacy name, read when P is not there
+		recGet := func(f *crashfs.FS) ([]byte, bool) {
+			if b, ok := f.Get(P); ok {
+				return b, true
+			}
+			return f.Get(L)
+		}
 		pre := fs.Clone()
-		startContent, startExists := pre.Get(P)
-		// the complete states of the record: as it was, and as it is each time a file is
-		// published under its name (close after writing, rename, link)
+		startContent, startExists := recGet(pre)
+		// the complete states of the record: as it was, and what the library asked the store
+		// to keep during this request (not: whatever the backend published under the name)
 		valid := [][]byte{}
 		if startExists {
 			valid = append(valid, startContent)
 		}
-		{
-			probe := pre.Clone()
+		valid = append(valid, savedBy[k]...)
+		for _, bop := range bracket {
+			st.syscalls[bop.Kind]++
+		}
+		if len(valid) == 0 {
+			// a request that saved nothing for a session that has no record
 			for _, bop := range bracket {
-				st.syscalls[bop.Kind]++
-				if pub := probe.Apply(bop, -1); pub == P {
-					b, _ := probe.Get(P)
-					valid = append(valid, append([]byte{}, b...))
-				}
+				fs.Apply(bop, -1)
 			}
+			i = j + 1
+			continue
 		}
 		final := valid[len(valid)-1:]
 		differs := startExists && len(final) > 0 && !bytes.Equal(final[0], startContent)
@@ -240,7 +287,7 @@ func checkC12(c C12Case) (o Outcome) {
 		expectCont := map[string]string{}
 		checkState := func(state *crashfs.FS, where string, doCont bool) *Violation {
 			st.crashStates++
-			content, exists := state.Get(P)
+			content, exists := recGet(state)
 			matched := -1
 			for vi, v := range valid {
 				if exists && bytes.Equal(v, content) {
